@@ -5,12 +5,11 @@ the operation named by a `last` record on the real classes and projects the real
 numpy is only used to build the inputs and to project npc Arrays to dense integer arrays; every expected number
 comes from TLC."""
 import random
-import shutil
 import warnings
 
 import numpy as np
 
-from . import core, tlc, tlaval
+from . import core
 
 FORMS = {'A': (1, 0), 'B': (0, 1), 'G': (0, 0), 'Th': (1, 1)}
 
